@@ -1,6 +1,7 @@
 import KM.Driver.AuthOps
 /-! Driver for C01: `cg <allowed csv|-> <sealed> <target> <certtype> <key ok|bad> <request shape>`
-↦ outcome of the `certGenHandler` decision model. -/
+↦ outcome of the `certGenHandler` decision model; `cfgcg <allowed> <webui> <target> …` the same on a
+config-file-loaded state. -/
 namespace KM.Driver.C01
 open KM.Util KM.Auth KM.CertGen KM.Driver.AuthOps
 
@@ -22,6 +23,15 @@ def run (v : Variant) : List String → String
       outcomeStr (decideWith v p.cfg (parseAllowed allowed)
         { req := p.req, sealed := sl, target := target, post := post })
     | _, _ => "bad-op"
+  -- the same request against a state built by the real config loader from a file in which the operator wrote
+  -- `allowed` (and a web-UI list, which must not matter): what counts is what was WRITTEN
+  | "cfgcg" :: allowed :: _webui :: target :: ctype :: key :: rest =>
+    match parseReq rest with
+    | some p =>
+      let post : Post := if !knownType ctype then .refused 400 else if key == "ok" then .ok else .refused 400
+      outcomeStr (decideWith v p.cfg (parseAllowed allowed)
+        { req := p.req, sealed := false, target := target, post := post })
+    | none => "bad-op"
   | _ => "bad-op"
 
 def handler (mode : String) : Option Handler :=
